@@ -52,9 +52,10 @@ Deviations == { "SweepKeepsEntries",        \* final sweep completes but does no
                 "UnorderedExec",            \* pipelined server runs handlers concurrently
                 "DispatchKeepsEntry",       \* dispatch does not remove the entry it completes
                 "SeqReuse",                 \* sequence number not advanced under the lock
-                "LookupFailInline",
-                "RemoveAtFinish",
-                "EofRunsQueued" }           \* at the end of the connection the teardown starts the requests still queued, whatever is executing          \* the entry of a dispatched response stays in the table until its completion runs        \* an unknown method is answered by the decode worker itself, ahead of the handler queue
+                "LookupFailInline",         \* an unknown method is answered by the decode worker itself, ahead of the handler queue
+                "RemoveAtFinish",           \* the entry of a dispatched response stays in the table until its completion runs
+                "EofRunsQueued",            \* at the end of the connection the teardown starts the requests still queued, whatever is executing
+                "AbandonRecycles" }         \* the Call object of an abandoned CallWithContext is reused while the table still refers to it
 
 ASSUME Dev \subseteq Deviations
 ASSUME Pings \subseteq Calls /\ CtxCalls \subseteq Calls \ Pings /\ FailCalls \subseteq Calls \ Pings /\ NoMethodCalls \subseteq FailCalls
@@ -333,12 +334,23 @@ ReaderDispatch(dInline, dKeep, drop) ==
     /\ UNCHANGED <<wvars, svars, bvars, issued, slog, wresp>>
 
 \* finishCall / the inline completions of read(): set the outcome, signal Done.
-Finish(c, dUnordered) ==
+\* Deviation AbandonRecycles: CallWithContext gives the Call object of an abandoned call back to the (process-wide) pool although
+\* the table still refers to it; a call started later takes the object, and the late response of the abandoned call completes
+\* that later call (one started after the cancellation) - with the reply computed from the abandoned call's arguments.
+PosIn(sq, x) == CHOOSE i \in 1..Len(sq) : sq[i] = x
+Marked(c) == \E i \in 1..Len(issued) : issued[i] = 0 - c
+Recyclers(c) == IF ~Marked(c) THEN {}
+                ELSE {d \in Calls \ {c} : ncomp[d] = 0 /\ cst[d] \in {"wq", "sending", "reg", "wrote"}
+                                          /\ PosIn(issued, d) > PosIn(issued, 0 - c)}
+FinishTarget(c, dRecycle) == IF dRecycle /\ ctxst[c] = "cancelled" /\ Recyclers(c) # {}
+                             THEN CHOOSE d \in Recyclers(c) : TRUE ELSE c
+
+Finish(c, dUnordered, dRecycle) ==
     /\ \E j \in 1..Len(fin) : fin[j].c = c
     /\ LET i == FirstIdx(fin, c)
            e == fin[i] IN
        /\ (e.via = "queue" /\ ~dUnordered => \A j \in 1..(i-1) : fin[j].via # "queue")
-       /\ Complete(c, IF e.f.err THEN SrvErr(e.f.c) ELSE Ok(e.f.c))
+       /\ Complete(FinishTarget(c, dRecycle), IF e.f.err THEN SrvErr(e.f.c) ELSE Ok(e.f.c))
        /\ fin' = RemoveAt(fin, i)
     /\ pending' = IF "RemoveAtFinish" \in Dev THEN pending \ {c} ELSE pending
     /\ UNCHANGED <<cseq, seqof, closing, shutdown, codecClosed, sockClosed, cst, wq, rdq, rd, ctxst>>
@@ -408,9 +420,12 @@ CtxReturnDone(c) ==
 CtxCancel(c) ==
     /\ ctxst[c] = "waiting"
     /\ ctxst' = [ctxst EXCEPT ![c] = "cancelled"]
+    \* (deviation AbandonRecycles only: the moment of the cancellation is marked in the issue history, so that "started
+    \*  afterwards" can be told; the marker -c is not a call and does not disturb the order properties)
+    /\ issued' = IF "AbandonRecycles" \in Dev THEN Append(issued, 0 - c) ELSE issued
     /\ UNCHANGED <<cseq, seqof, pending, closing, shutdown, codecClosed, sockClosed, cst, wq, rdq, fin, rd,
                    ncomp, res, res0>>
-    /\ UNCHANGED <<wvars, svars, bvars, hvars>>
+    /\ UNCHANGED <<wvars, svars, bvars, slog, wresp, comps>>
 
 --------------------------------------------------------------------------------
 \* Network / peer misbehaviour.
@@ -526,7 +541,7 @@ LibraryStep ==     \* steps the library takes by itself (fairness applies to the
     \/ \E c \in Calls : \E d \in DevChoice("WriteFailAlwaysCompletes") : WriteFailClosed(c, d)
     \/ ReaderRecv
     \/ \E d1 \in DevChoice("ErrorInline") : \E d2 \in (IF "RemoveAtFinish" \in Dev THEN {TRUE} ELSE DevChoice("DispatchKeepsEntry")) : \E drop \in BOOLEAN : ReaderDispatch(d1, d2, drop)
-    \/ \E c \in Calls : \E d \in DevChoice("UnorderedFinish") : Finish(c, d)
+    \/ \E c \in Calls : \E d \in DevChoice("UnorderedFinish") : \E dr \in DevChoice("AbandonRecycles") : Finish(c, d, dr)
     \/ \E d1 \in DevChoice("SweepBeforeDrain") : \E d2 \in DevChoice("SweepKeepsEntries") :
             \E d3 \in DevChoice("SweepSkips") : ReaderEOF(FALSE, d1, d2, d3)
     \/ Close2a \/ Close2b
@@ -638,7 +653,9 @@ RespInOrder ==
         IsSubSeqOf(SelectCalls([i \in 1..Len(wresp) |-> wresp[i].c], AsyncCalls), issued)
 \* response-driven completions (success or server-reported error) in issue order
 RespDriven == {c \in AsyncCalls : res0[c].kind \in {"ok", "srverr"}}
-CompInOrder == SrvPipe /\ CliPipe => IsSubSeqOf(SelectCalls(comps, RespDriven), issued)
+\* (promised for a peer that answers each request once: when the peer repeats a response and a local Close discards the first copy -
+\*  the codec's closed flag is tested frame by frame, without a lock - the repeated copy may complete its call behind a later one)
+CompInOrder == SrvPipe /\ CliPipe /\ ndup = 0 => IsSubSeqOf(SelectCalls(comps, RespDriven), issued)
 
 \* ---- C06: errors reach exactly the failing call, verbatim
 ErrToOwner == \A c \in Calls : res[c].kind = "srverr" => res[c].val = c /\ c \in FailCalls
